@@ -510,6 +510,8 @@ def _frame_for(rng, iface, n, flat_only):
 def _pool_config(rng, n, forced, threads):
     if forced is not None:
         return len(forced) + rng.choice([0, 0, 1, 3]), (1 if not threads else rng.randint(1, n + 1))
+    if not threads:  # forking eight workers per case dominates the cost: keep 8 present, lower the mean
+        return rng.choice([1, 2, 2, 3, 3, 4, 5, 6, 8]), rng.randint(1, n + 1)
     return rng.randint(1, 8), rng.randint(1, n + 1)
 
 
@@ -626,7 +628,7 @@ def _store_case(rng, n=None, forced=None, fmt=None, direction=None):
     for lab, spec in zip(labels, specs):
         spec.name = lab
     direction = direction or rng.choice(['write', 'read'])
-    workers = (len(forced) if forced is not None else rng.randint(1, 8))
+    workers = (len(forced) if forced is not None else rng.choice([1, 2, 2, 3, 3, 4, 5, 6, 8]))
     chunk = 1 if forced is not None else rng.randint(1, n + 1)
     read_labels = list(labels)
     if direction == 'read' and forced is None:
@@ -694,21 +696,21 @@ def generate(ctx):
             yield _batch_case(rng, n=n, forced=p, threads=True)
     # (3) forced orders with process pools (fewer: pools are slow to start)
     ns = (2, 3) if quick else (2, 3, 4)
-    jobs = [(n, p, r) for n in ns for p in _PERMS[n] for r in range(4 if quick else 10)]
+    jobs = [(n, p, r) for n in ns for p in _PERMS[n] for r in range(3 if quick else 10)]
     for i, (n, p, r) in enumerate(jobs):
         if i % nsh == sh:
             yield _iter_case(rng, n=n, forced=p, threads=False)
-    jobs = [(n, p, r) for n in ns for p in _PERMS[n] for r in range(3 if quick else 5)]
+    jobs = [(n, p, r) for n in ns for p in _PERMS[n] for r in range(2 if quick else 5)]
     for i, (n, p, r) in enumerate(jobs):
         if i % nsh == sh:
             yield _batch_case(rng, n=n, forced=p, threads=False)
-    jobs = [(n, p, d, r) for n in ns for p in _PERMS[n] for d in ('write', 'read') for r in range(3 if quick else 4)]
+    jobs = [(n, p, d, r) for n in ns for p in _PERMS[n] for d in ('write', 'read') for r in range(2 if quick else 4)]
     for i, (n, p, d, r) in enumerate(jobs):
         if i % nsh == sh:
             yield _store_case(rng, n=n, forced=p, fmt='pickle', direction=d)
     # (4) sampled configurations
-    plan = ([('iter_t', ctx.n(1400, 40000)), ('iter_p', ctx.n(150, 6000)), ('batch_t', ctx.n(520, 13000)),
-             ('batch_p', ctx.n(80, 2800)), ('store', ctx.n(150, 4200)), ('align', ctx.n(48, 480))])
+    plan = ([('iter_t', ctx.n(1400, 40000)), ('iter_p', ctx.n(120, 6000)), ('batch_t', ctx.n(520, 13000)),
+             ('batch_p', ctx.n(64, 2800)), ('store', ctx.n(120, 4200)), ('align', ctx.n(48, 480))])
     order = [k for k, c in plan for _ in range(c)]
     rng.shuffle(order)
     for k in order:
